@@ -131,12 +131,11 @@ class Ctx:
         with Lock("coq"):
             if not os.path.exists(os.path.join(COQ, "Makefile")):
                 sh(["coq_makefile", "-f", "_CoqProject", "-o", "Makefile"], cwd=COQ, check=True)
+            # every executable model is brought up to date with the regenerated tables first: the cases a check evaluates import
+            # Model/*.vo files that need not be dependencies of its Props file (a stale one is "inconsistent assumptions")
+            models = ["Model/" + f[:-2] + ".vo" for f in sorted(os.listdir(os.path.join(COQ, "Model"))) if f.endswith(".v")]
+            sh(["timeout", "1500", "make", "-k", "-j%d" % NCPU] + models, cwd=COQ, timeout=1600)
             rc, o, e = sh(["timeout", "1500", "make", "-j%d" % NCPU] + targets, cwd=COQ, timeout=1600)
-            if rc != 0:
-                # a proof no longer checks: still bring every executable model up to date with the regenerated tables, so that
-                # the search for a failing input (cases evaluated against Model/*.vo) runs on a consistent build
-                models = ["Model/" + f[:-2] + ".vo" for f in sorted(os.listdir(os.path.join(COQ, "Model"))) if f.endswith(".v")]
-                sh(["timeout", "1500", "make", "-k", "-j%d" % NCPU] + models, cwd=COQ, timeout=1600)
             return rc == 0, o + e
 
     def coq_props(self, propfile):
